@@ -3,7 +3,7 @@
 From Coq Require Import String Ascii List Bool ZArith NArith Relations.
 Import ListNotations.
 Require Import V.Lib.PyStr V.Valid.Model V.Valid.Proofs V.Valid.Kahn V.Valid.Replicate V.Valid.Generated V.Valid.GenProofs
-  V.Valid.Scalars.
+  V.Valid.Scalars V.Valid.Prim V.Valid.PrimEx.
 Open Scope string_scope.
 
 (* accepted => identifiers unique, every reference names a component, no dependency cycle (no path from a
@@ -264,6 +264,70 @@ Theorem C11_string_for_int_option_rejected : forall w i c p k s m,
 Proof. exact string_for_int_option_rejected. Qed.
 Print Assumptions C11_string_for_int_option_rejected.
 
+(* ---- the PRIMITIVE load (graphFromFlowIR / packageFromLocation with their default primitive=True; the gate for a
+   dangling reference there is FlowIR.validate_references alone).  accept_prim is the structural part of that load;
+   whatever the full load accepts it accepts *)
+Theorem C11_prim_sound : forall w, accept_prim component_full w = true ->
+  NoDup (ids w) /\
+  (forall c r, In c (w_comps w) -> In r (c_refs c) -> exists c', In c' (w_comps w) /\ c_id c' = r) /\
+  (forall c, In c (w_comps w) -> doc_hard_errs component_full (c_doc c) = []).
+Proof. exact (prim_sound component_full). Qed.
+Print Assumptions C11_prim_sound.
+
+Theorem C11_prim_weaker : forall w, accept component_full w = true -> accept_prim component_full w = true.
+Proof. exact (accept_prim_weaker component_full). Qed.
+Print Assumptions C11_prim_weaker.
+
+(* every structural single fault that does not need the expanded graph is refused by the primitive load too, at any
+   position: a reference is looked up by (stage, name) - [applicable] of DropComponent / RenameRef speaks about the
+   IDENTIFIER, so a component of the same name in another stage does not make the reference resolved *)
+Theorem C11_prim_complete : forall m w,
+  accept_prim component_full w = true -> prim_fault m = true -> applicable component_full m w ->
+  accept_prim component_full (mutate m w) = false.
+Proof. exact (prim_complete component_full). Qed.
+Print Assumptions C11_prim_complete.
+
+(* the instance a loader that indexes the known components by NAME gets wrong: only the STAGE of the reference is wrong *)
+Theorem C11_prim_reference_wrong_stage : forall w i j c s n s',
+  accept_prim component_full w = true ->
+  nth_error (w_comps w) i = Some c -> nth_error (c_refs c) j = Some (s, n) -> ~ In (s', n) (ids w) ->
+  accept_prim component_full (mutate (RenameRef i j (s', n)) w) = false.
+Proof. exact (prim_wrong_stage component_full). Qed.
+Print Assumptions C11_prim_reference_wrong_stage.
+
+(* ---- the identifiers of the EXPANDED workflow (replicated load; replica k of `name` is called name ++ decimal k):
+   whatever the replica counts, an accepted workflow has unique expanded identifiers ... *)
+Theorem C11_expanded_ids_unique : forall (cnt : cid -> option N) w,
+  accept_repl component_full cnt w = true -> accept component_full w = true /\ NoDup (expand_ids cnt w).
+Proof. exact (repl_sound component_full). Qed.
+Print Assumptions C11_expanded_ids_unique.
+
+(* ... and a workflow in which the expansions of two different components share an identifier is rejected: *)
+Theorem C11_expansion_clash_rejected : forall (cnt : cid -> option N) w i j c d x,
+  i <> j -> nth_error (w_comps w) i = Some c -> nth_error (w_comps w) j = Some d ->
+  In x (replica_ids cnt c) -> In x (replica_ids cnt d) ->
+  accept_repl component_full cnt w = false.
+Proof. exact (repl_clash_rejected component_full). Qed.
+Print Assumptions C11_expansion_clash_rejected.
+
+(* replica k of c (n replicas, k < n) is called like the authored component d of the same stage (sample x3 / sample1) *)
+Theorem C11_replica_vs_authored_name_rejected : forall (cnt : cid -> option N) w i j c d n k,
+  i <> j -> nth_error (w_comps w) i = Some c -> nth_error (w_comps w) j = Some d ->
+  cnt (c_id c) = Some n -> (k < n)%N -> cnt (c_id d) = None ->
+  c_stage d = c_stage c -> c_name d = (c_name c ++ dec k)%string ->
+  accept_repl component_full cnt w = false.
+Proof. exact (repl_authored_clash component_full). Qed.
+Print Assumptions C11_replica_vs_authored_name_rejected.
+
+(* replica k of c and replica k' of d have the same text (run x11 / run1 x2: "run" ++ "10" = "run1" ++ "0") *)
+Theorem C11_replica_vs_replica_name_rejected : forall (cnt : cid -> option N) w i j c d n m k k',
+  i <> j -> nth_error (w_comps w) i = Some c -> nth_error (w_comps w) j = Some d ->
+  cnt (c_id c) = Some n -> (k < n)%N -> cnt (c_id d) = Some m -> (k' < m)%N ->
+  c_stage d = c_stage c -> (c_name d ++ dec k')%string = (c_name c ++ dec k)%string ->
+  accept_repl component_full cnt w = false.
+Proof. exact (repl_replica_clash component_full). Qed.
+Print Assumptions C11_replica_vs_replica_name_rejected.
+
 (* non-vacuity: a three-component, two-stage workflow with variables is accepted by the regenerated schema and each
    of the eight faults (here: one position each; three for CyclicVars: among the globals, a global through a
    component variable, a component variable on itself) makes it rejected; the CyclicVars instances are applicable *)
@@ -299,7 +363,25 @@ Example C11_nonvacuous :
   reasons component_full (mutate (RemoveCompVar 1 "chunk") ex_wf_sib) = [5] /\
   applicable component_full (RemoveCompVar 0 "chunk") ex_wf_sib /\
   applicable component_full (RemoveCompVar 1 "chunk") ex_wf_sib /\
-  applicable component_full (RemoveCompVar 0 "label") ex_wf_sib.
+  applicable component_full (RemoveCompVar 0 "label") ex_wf_sib /\
+  (* the primitive load: the name a is used in stages 0 and 1; dropping stage0.a (two consumers remain, stage1.a keeps
+     the name) and renaming the reference stage0.b to stage1.b (only the stage is wrong) are refused for reason 3;
+     both faults are applicable; a back edge is NOT refused by the primitive load (no graph is built) *)
+  accept component_full ex_wf_twin = true /\ accept_prim component_full ex_wf_twin = true /\
+  map (fun m => (accept_prim component_full (mutate m ex_wf_twin), reasons_prim component_full (mutate m ex_wf_twin)))
+      [DropComponent 0; RenameRef 2 0 (1%N, "b"); RenameRef 2 0 (0%N, "a"); AddBackEdge 0 (1%N, "a")]
+  = [(false, [3]); (false, [3]); (true, []); (true, [])] /\
+  applicable component_full (DropComponent 0) ex_wf_twin /\
+  applicable component_full (RenameRef 2 0 (1%N, "b")) ex_wf_twin /\
+  (* expanded identifiers: sample x3 next to the authored sample1 clashes (x1: sample0 only, no clash); run x10 next
+     to run1 x2 gives 12 distinct identifiers, run x11 yields run10 twice; both workflows have unique identifiers as
+     written *)
+  accept component_full ex_wf_clash = true /\ accept component_full ex_wf_run = true /\
+  map (fun n => accept_repl component_full (cnt_of [((0%N, "sample"), n)]) ex_wf_clash) [0%N; 1%N; 2%N; 3%N]
+  = [true; true; false; false] /\
+  reasons_repl component_full (cnt_of [((0%N, "sample"), 3%N)]) ex_wf_clash = [2] /\
+  map (fun n => accept_repl component_full (ex_cnt_run n) ex_wf_run) [2%N; 10%N; 11%N] = [true; true; false] /\
+  length (expand_ids (ex_cnt_run 10) ex_wf_run) = 12.
 Proof.
   split; [vm_compute; reflexivity|]. split; [vm_compute; reflexivity|]. split; [vm_compute; reflexivity|].
   split; [vm_compute; reflexivity|].
@@ -307,5 +389,9 @@ Proof.
   split; [vm_compute; reflexivity|]. split; [vm_compute; reflexivity|]. split; [exact ex_nproc_int|].
   split; [discriminate|]. split; [vm_compute; reflexivity|]. split; [vm_compute; reflexivity|].
   split; [vm_compute; reflexivity|]. split; [vm_compute; reflexivity|]. split; [vm_compute; reflexivity|].
-  exact ex_remove_comp_var_applicable.
+  destruct ex_remove_comp_var_applicable as [R1 [R2 R3]]. repeat (split; [assumption|]).
+  split; [vm_compute; reflexivity|]. split; [vm_compute; reflexivity|]. split; [vm_compute; reflexivity|].
+  destruct ex_prim_applicable as [P1 P2]. repeat (split; [assumption|]).
+  split; [vm_compute; reflexivity|]. split; [vm_compute; reflexivity|]. split; [vm_compute; reflexivity|].
+  split; [vm_compute; reflexivity|]. split; [vm_compute; reflexivity|]. vm_compute; reflexivity.
 Qed.
